@@ -9,7 +9,7 @@ THEOREMS = ["Slock.C10F." + t for t in (
     "C10F_never_decides_violated_first_text C10F_relay_unchanged C10F_relay_binary_unconditional C10F_forward_unchanged "
     "C10F_forward_nothing_else C10F_same_outcome C10F_same_outcome_text C10F_one_reply C10F_delivered_spec C10F_one_reply_exactly "
     "C10F_text_unblocked C10F_one_reply_link_loss_violated C10F_one_reply_rerouted_violated C10F_one_reply_early_violated "
-    "C10F_role_change C10F_role_change_back C10F_local_exclusive").split()]
+    "C10F_late_init_unanswered C10F_init_answer_unattached C10F_role_change C10F_role_change_back C10F_local_exclusive").split()]
 
 ASSUMPTIONS = [
     "M-TRANS (lean/Slock/Model/Trans.lean) is hand-written; it is tied to server/server.go (checkProtocol, handle) + server/transparency.go + "
@@ -23,8 +23,8 @@ ASSUMPTIONS = [
     "the leader is abstract in the model: its frames (`r …` events) are read off the wire by the proxy and fed to the model; what the node's own "
     "engine answers when the node IS the leader (`loc`) is outside this model (engine half of C10)",
     "granularity: one event = one complete reaction (request processed / frame relayed / rollback done), observed at quiescence; Write to a link "
-    "whose socket is up succeeds; the one race that showed up at this granularity (the leader's answer is read before Write records the command "
-    "as latest) is an explicit input (`re …`); CheckClient racing with a concurrent link loss, the 2 s arbiterWaiter delay (the harness wakes "
+    "whose socket is up succeeds; the two races that showed up at this granularity (the leader's answer is read before Write records the command "
+    "as latest; a frame read from a fresh link before CheckClient attached the link object) are explicit inputs (`re …`, `rx …`) which the harness sets from what the real link object shows; CheckClient racing with a concurrent link loss, the 2 s arbiterWaiter delay (the harness wakes "
     "the manager instead of waiting), idle-link pooling of text connections and will commands (forwarded at Close) are not modelled",
     "C10F_one_reply is proved under OkRun: the client does not reuse a RequestId on a connection; the leader answers a forwarded LOCK/UNLOCK at "
     "most once and on the link instance it arrived on; no answer overtakes Write's bookkeeping. The two ways the real system leaves OkRun are "
@@ -72,7 +72,9 @@ def first_divergence(op, impl, model):
 def run_forward(ctx, prefixes=None):
     prefixes = prefixes or PREFIXES
     ctx.lake_build(["Slock.Properties.C10Forward"])
+    prev = list(ctx.cov.get("theorems") or [])  # audit() overwrites the list: keep what the caller (c10.py, engine half) audited before
     ctx.audit("Slock.Properties.C10Forward", THEOREMS)
+    ctx.cov["theorems"] = prev + [t for t in THEOREMS if t not in prev]
     if ctx.tier == "thorough":
         ctx.leanchecker("Slock.Properties.C10Forward")
     exe = ctx.build_harness("server", only=TRANS_FILES)
